@@ -1098,7 +1098,7 @@ META = dict(
 )
 
 MANIFEST = dict(
-    text='For C14: Cells.add_cell/remove_cell/get_near_cells/assign_cells for ALL real coordinates (unbounded), cell sizes 2 and 5 (1..10 thorough), against a Euclidean brute-force oracle, over every add/remove/move/readd sequence up to the stated length; plus the call sites that are supposed to keep the map in step with coordinate writes and atom deletions - Debump.set_dihedral_angle, the Debump.debump_residue scan, Flip, Water/Alcoholic finalize/complete/try_both, the Carboxylic optimisation (rotations abstracted to arbitrary positions, outcomes of geometric tests symbolic selectors): on return and at every neighbour query each atom is binned where it is and no deleted atom is listed; the distance cut-offs of the callers lie within the cell size the real set-up configures (relational two-run obligation); a map rebuilt between passes lists exactly the live atoms. Round 4: a real donor attempt (try_donor on an oxygen with two bonds, outcome of each trial position a selector) before finalisation.',
+    text='For C14: Cells.add_cell/remove_cell/get_near_cells/assign_cells for ALL real coordinates (unbounded), cell sizes 2 and 5 (1..10 thorough), against a Euclidean brute-force oracle, over every add/remove/move/readd sequence up to the stated length; plus the call sites that are supposed to keep the map in step with coordinate writes and atom deletions - Debump.set_dihedral_angle, the Debump.debump_residue scan, Flip, Water/Alcoholic finalize/complete/try_both, the Carboxylic optimisation (rotations abstracted to arbitrary positions, outcomes of geometric tests symbolic selectors): on return and at every neighbour query each atom is binned where it is and no deleted atom is listed; the distance cut-offs of the callers lie within the cell size the real set-up configures (relational two-run obligation); a map rebuilt between passes lists exactly the live atoms. Round 4: a real donor attempt (try_donor on an oxygen with two bonds, outcome of each trial position a selector) before finalisation. Round 5: histories with queries before the change (anything a query remembers must not outlive a change); donor attempts on oxygens with three bonds.',
     note='Trusted: z3, the symx int()-truncation, numpy-subset and association-list dict models (validated against CPython each run). Coordinates are exact reals (add_cell only compares with 0 and truncates, exact on doubles). Histories bounded (2 atoms x 1 operation at cell sizes 2 and 5; longer ones were measured at > 15 min per group and are not registered). Call-site obligations abstract the geometry (any position may result from a rotation; any outcome of a geometric test), so they over-approximate the reachable states of each site: a violation there is replayed concretely before it is reported.',
     technique='symbolic execution of real code on z3 Real/Int proxies (symx) + SMT verdict per path',
     design='DESIGN.md section 3 C14',
